@@ -63,6 +63,12 @@ def components():
     add('rbag', lambda i: [('s%d' % i, R(BAG))])
     add('rs', lambda i: [('t%d' % i, I(1)), ('u%d' % i, RS(F('t%d' % i), _sel_table(), 0))])
     add('rsd', lambda i: [('t%d' % i, I(1)), ('u%d' % i, RS(F('t%d' % i), [(1, I(1)), (3, BAG)], PV('Bag', {'num': 1, 'objs': [9]}), form='lambda'))])
+    add('rst', lambda i: [('t%d' % i, I(1)),
+                          ('u%d' % i, dict(RS(F('t%d' % i), [(1, I(1)), (2, I(2)), (4, D(C(1)))], 0), shared_table='TABLE%d' % i)),
+                          ('v%d' % i, dict(RS(F('t%d' % i), [(1, I(1)), (2, I(2)), (4, D(C(1)))], 0), shared_table='TABLE%d' % i))])
+    add('rsts', lambda i: [('t%d' % i, I(1)),
+                           ('u%d' % i, dict(RS(F('t%d' % i), [(1, I(2)), (3, SUB)], 0), shared_table='TABS%d' % i)),
+                           ('l%d' % i, S(dict(RS(F('t%d' % i), [(1, I(2)), (3, SUB)], 0), shared_table='TABS%d' % i), C(2), default=[]))])
     add('rsl', lambda i: [('t%d' % i, I(1)), ('u%d' % i, RS(F('t%d' % i), _sel_table(), 0, form='lambda'))])
     # ---- repeated
     add('s2', lambda i: [('l%d' % i, S(I(1), C(2)))])
@@ -138,7 +144,7 @@ def components():
 COMPONENTS = components()
 
 # one representative per mechanism, used for pairs in the quick tier and triples in the thorough tier
-REDUCED = ['i1', 'i2l', 'i3', 'dn', 'dx', 'm0', 'mab', 'rx', 'rxlb', 'b35', 'r1', 'rs', 'sn', 'ss', 'su', 'suo', 'sua', 'sw', 'sa', 'sr', 'o1', 'os', 'or',
+REDUCED = ['i1', 'i2l', 'i3', 'dn', 'dx', 'm0', 'mab', 'rx', 'rxlb', 'b35', 'r1', 'rs', 'rst', 'sn', 'ss', 'su', 'suo', 'sua', 'sw', 'sa', 'sr', 'o1', 'os', 'or',
            'p_at3', 'p_atn', 'p_shm1', 'p_shm2d', 'p_al2', 'p_al3', 'p_al4i', 'p_em4', 'p_d0', 'eos']
 
 
@@ -319,3 +325,20 @@ def declarations(tier, comps=None, reduced=None, wrappers=('a', 'b', 'c'), exclu
                 for c in tr:
                     out.append(((a, b, c), 'a'))
     return out
+
+
+def families():
+    """same-named classes defined one after the other in ONE module (one cache file): field lists that differ
+    only in widths / signedness / the class-wide byte order, under the option sets that decide which code is
+    generated"""
+    fams = []
+    optsets = [{}, {'generate_for_pack': False}, {'generate_for_unpack': False}, {'annotate': False}, {'vectorize': False}]
+    for o in optsets:
+        fams.append([{'names': ['i2', 'i2'], 'opts': o}, {'names': ['i4', 'i4'], 'opts': o}, {'names': ['i2', 'i2'], 'opts': o}])
+        fams.append([{'names': ['i2', 'dn'], 'opts': o}, {'names': ['i2l', 'dn'], 'opts': o}])
+        fams.append([{'names': ['i2', 'i1'], 'opts': dict(o, endianness='little')}, {'names': ['i2', 'i1'], 'opts': o},
+                     {'names': ['i2', 'i1'], 'opts': dict(o, endianness='big')}])
+        fams.append([{'names': ['i1', 'i2'], 'opts': o}, {'names': ['i1s', 'i2'], 'opts': o}])
+    fams.append([{'names': ['sn'], 'opts': {}}, {'names': ['sns'], 'opts': {}}, {'names': ['sn'], 'opts': {'generate_for_pack': False}}])
+    fams.append([{'names': ['b44', 'i1'], 'opts': {}}, {'names': ['b35', 'i1'], 'opts': {}}])
+    return [{'family': f} for f in fams]
